@@ -36,7 +36,9 @@ func (g *c11Gen) pick(ss ...string) string { return ss[g.r.Intn(len(ss))] }
 func (g *c11Gen) factArg() string {
 	return g.pick("1", "2", "3", "a", "b", "1", "2", "g(A,A)", "g(_,_)", "g(B,B)", "f(_)", "f(a)", "g(a,_)", "g(X,Y)", "[1,2]", "[]", "p-1", "p-2", "q-1",
 		// open lists whose tail occurs again elsewhere in the fact: copies must keep the sharing
-		"[a,b|A]", "[1,2,3|B]", "A", "[x,y|X]-X")
+		"[a,b|A]", "[1,2,3|B]", "A", "[x,y|X]-X",
+		// proper lists that are prefixes of one another (setof/3 has to order them: shorter first)
+		"[1]", "[1,2,3]", "[1,2,3,4]", "[1,2,3,4,5,6]", "[a]", "[a,b,c,d]", "[[1],[1,2,3]]", "[1,2]", "[1,2,3,4,5,6]", "[1]")
 }
 
 func (g *c11Gen) facts() string {
@@ -75,7 +77,7 @@ func (g *c11Gen) simpleGoal() string {
 	case 5:
 		return fmt.Sprintf("t(%s, %s, %s)", g.v(), g.v(), g.v())
 	case 6:
-		return fmt.Sprintf("member(%s, [%s])", g.v(), g.pick("1,2,3", "a,b,a", "3,1,2,1", "f(A),f(B),f(A)", "Y,Z", "2"))
+		return fmt.Sprintf("member(%s, [%s])", g.v(), g.pick("1,2,3", "a,b,a", "3,1,2,1", "f(A),f(B),f(A)", "Y,Z", "2", "[1,2,3,4],[1],[1,2],[1,2,3,4,5],[]", "[a,b,c],[a],[a,b,c,d,e]"))
 	default:
 		return fmt.Sprintf("%s = %s", g.v(), g.pick("1", "a", "f(Z)", "Y"))
 	}
